@@ -46,6 +46,8 @@ Controlled(cs, b) == \E w \in Writers : wr[w].open /\ wr[w].chans \cap cs # {} /
 DeleteConc(cs, a, b) ==
   IF Controlled(cs, b) \/ (("I" \in cs) /\ Controlled(DataChan, b))
   THEN /\ res' = "controlled" /\ UNCHANGED <<committed, domains, wr, nextId>>
+  ELSE IF MustRefuse(cs, a, b)      \* index delete over data of a dependent channel
+  THEN /\ res' = "refused" /\ UNCHANGED <<committed, domains, wr, nextId>>
   ELSE /\ committed' = [c \in Chan |-> IF c \in cs
                           THEN [t \in Even |-> IF a <= t /\ t < b THEN 0 ELSE committed[c][t]]
                           ELSE committed[c]]
@@ -63,6 +65,9 @@ TLin(p) ==
                pairs == {<<t, e.id>> : t \in times}
                w2 == [wr["w1"] EXCEPT !.hwm = Max(times), !.buf = @ \cup pairs, !.n = @ + Cardinality(times)]
            IN /\ wr["w1"].open
+              \* a data-only writer needs index samples at the times it fills (checked when the
+              \* samples are committed: at once with auto-commit, else at Commit)
+              /\ ("I" \in wr["w1"].chans \/ ~wr["w1"].auto \/ times \subseteq Samples("I"))
               /\ IF wr["w1"].auto
                  THEN LET r == DoCommit("w1", committed, domains, w2.buf)
                       IN /\ committed' = r[1] /\ domains' = r[2]
@@ -70,10 +75,11 @@ TLin(p) ==
                  ELSE /\ wr' = [wr EXCEPT !["w1"] = w2] /\ UNCHANGED <<committed, domains>>
               /\ res' = "ok"
      \/ /\ pend[p].op = "commit" /\ Commit("w1")
+        /\ ("I" \in wr["w1"].chans \/ {q[1] : q \in wr["w1"].buf} \subseteq Samples("I"))
      \/ /\ pend[p].op = "close" /\ CloseWriter("w1")
      \/ /\ pend[p].op = "delete" /\ DeleteConc(SeqToSet(e.chans), e.a, e.b)
      \* an operation that reports failure must be explainable as a no-op
-     \/ /\ pend[p].op \in {"delete", "open"} /\ res' = "failed"
+     \/ /\ pend[p].op \in {"delete", "open", "write", "commit"} /\ res' = "failed"
         /\ UNCHANGED <<committed, domains, wr, nextId>>
      \/ /\ pend[p].op \in {"gc", "read", "chan"} /\ res' = "ok"
         /\ UNCHANGED <<committed, domains, wr, nextId>>
@@ -84,7 +90,8 @@ TRet == /\ More /\ Ev.ev = "ret"
         /\ pend[Ev.p].done
         \* outcome classes of GC passes, reads and unrelated channel operations are not
         \* compared (e.g. a GC pass legitimately fails on a channel deleted meanwhile)
-        /\ (Ev.p \in {"g", "r", "c"} \/ (pend[Ev.p].res = "ok") = (Ev.res = "ok"))
+        \* (nor is that of Close, which reports the error of an earlier failed write again)
+        /\ (Ev.p \in {"g", "r", "c"} \/ pend[Ev.p].op = "close" \/ (pend[Ev.p].res = "ok") = (Ev.res = "ok"))
         /\ pend' = [pend EXCEPT ![Ev.p] = NoCall]
         /\ l' = l + 1 /\ UNCHANGED vars
 
